@@ -1,4 +1,4 @@
-"""Translator for C19 (round four): regenerates lean/DuneVerif/Gen/C19.lean from the current source tree.
+"""Translator for C19 (round four, generalised in round five): regenerates lean/DuneVerif/Gen/C19.lean from the current source tree.
 
 Part 1 - dune/common/parallel/mpiguard.hh, class MPIGuard: the bodies of `finalize(bool success = <default>)`,
 `reactivate()` and `~MPIGuard()` are parsed statement by statement and re-emitted as Lean programs over
@@ -34,6 +34,27 @@ Grammar (anything else raises TranslateError = broken obligation, check.py then 
   `result>0`, other names, other layout translate to programs for which the same proofs go through;
 * future members: one recognised micro operation per statement (see _FUT_STMT); an additional statement, a missing one or
   another order changes the list and with it the truth of the theorems.
+
+Round five - normalisation BEFORE the grammar, so that equivalent spellings give the same generated text (futures) or a
+program the same proofs accept (guard); `python3 tools/translators/tr_c19.py --selftest` runs the POS/NEG edits below:
+* guard: calls of member helpers `[static] int|bool h(int|bool p, ..) [const]` whose body is a value tree of `return`s
+  (`return e;`, if/else, blocks) are replaced by the helper's value with the translated (pure) arguments put in for the
+  parameters (_find_helpers, _Expr.call); calls `h();` of `void h()` members whose body is statements of the guard grammar
+  without locals and without `return` are replaced by these statements (_find_void_helpers).  A helper with a side effect,
+  a collective, a loop, a path without return is not a helper: its use stays an unknown name;
+* future classes: member functions only declared in the class and defined after it
+  (`template<class A, class B> RET MPIFuture<A, B>::name(..) quals { .. }`, also for `Buffer<T>`, `Buffer<T&>`,
+  `Buffer<void>`, `PseudoFuture<T>`, `PseudoFuture<void>`, `Future<T>`) are read as in-class definitions with the template
+  parameters renamed to the class's own (_pull_in); the wrapped object of `FutureModel` (the one data member of its template
+  parameter type) and the `std::unique_ptr<FutureBase>` member of `Future<T>` may have any name (_canonical_member);
+* value-returning control flow in one spelling `if (c) return a; return b;`: `return c ? a : b;`, if/else of returns,
+  `if (!x) return b; return a;`, in functions returning bool `return x && e;`; null / emptiness tests of one name
+  (`x != nullptr`, `static_cast<bool>(x)`, `x == false`, ..) as `x` / `!x`; `if (c) { S } else DUNE_THROW(..);` and
+  `if (c) DUNE_THROW(..); else { S }` as the guard clause; `this->` dropped; `return flag != 0;` / `static_cast<bool>(flag)` for
+  `return flag;` of the int completion flag (never for the object moved out of a buffer) (_norm_returns);
+* `void helper()` members of a future class (not part of its interface) are inlined at `helper();` (_void_helpers);
+* non-blocking members: `MPI_Request* [const] p = &future.req_;` / `MPI_Request& r = future.req_;` (or `auto`) name the
+  future's request; `p` / `&r` as last argument of the MPI call count as `&future.req_`.
 """
 import os
 import re
@@ -85,6 +106,11 @@ def _class_body(src, rx, what):
 def _fn(body, rx, what):
     """(match object, text between the braces of the function body) of the member whose head matches rx"""
     ms = list(re.finditer(rx, body))
+    # a member that is only declared in the class (`bool ready() const;`) and defined after it has been pulled into the
+    # body text by _pull_in: prefer the one definition over the declarations
+    defs = [m for m in ms if body[_ws(body, m.end()):_ws(body, m.end()) + 1] == "{"]
+    if len(defs) == 1 and all(body[_ws(body, m.end()):_ws(body, m.end()) + 1] == ";" for m in ms if m is not defs[0]):
+        ms = defs
     if len(ms) != 1:
         raise TranslateError("%s: %d definitions found" % (what, len(ms)))
     m = ms[0]
@@ -93,6 +119,64 @@ def _fn(body, rx, what):
     if body[i] != "{":
         raise TranslateError("%s: body expected, found %r" % (what, body[i:i + 20]))
     return m, body[i + 1:_match(body, i, "{", "}") - 1]
+
+
+def _tparam_names(text):
+    """names of the parameters of a template header `class A = void, typename B, int N`"""
+    out = []
+    for part in _top_split(text):
+        part = part.split("=")[0].strip()
+        m = re.search(r"(\w+)\s*$", part)
+        if not part or not m:
+            raise TranslateError("template parameter %r" % part)
+        out.append(m.group(1))
+    return out
+
+
+def _rename_words(text, mapping):
+    mapping = {a: b for a, b in mapping.items() if a != b}
+    if not mapping:
+        return text
+    return re.sub(r"(?<![\w])(%s)(?![\w])" % "|".join(map(re.escape, mapping)), lambda m: mapping[m.group(1)], text)
+
+
+def _pull_in(src, cls, cparams, expected):
+    """Member functions of the class template `cls` that are DEFINED outside the class
+    (`template<class A, class B> RET cls<A, B>::name(params) quals { body }`), rewritten as in-class definitions
+    `RET name(params) quals { body }` with the template parameters renamed to the class's own (`cparams`).  `expected` is
+    the normalised template-argument list that selects the (partial) specialisation: "R , S", "T &", "void".  Name lookup in
+    such a body is done in class scope, so the text means the same inside the class.  Constructors with initialiser
+    lists and anything that is not a function definition are left alone (the caller then fails on the bare declaration)."""
+    out = []
+    for m in re.finditer(r"(?<![\w])%s\s*<([^<>;{}()]*)>\s*::\s*" % cls, src):
+        k = max(src.rfind(";", 0, m.start()), src.rfind("}", 0, m.start()), src.rfind("{", 0, m.start())) + 1
+        head = src[k:m.start()]
+        hm = re.match(r"\s*(?:template\s*<([^<>]*)>)?\s*([\w:&*<>,\s]*)$", head)
+        if not hm:
+            continue
+        nm = re.match(r"(~?\w+|operator\s+\w+|operator\s*\(\s*\)|operator\s*[^\w\s(]+)\s*\(", src[m.end():])
+        if not nm or nm.group(1) == "template":
+            continue
+        pe = _match(src, m.end() + nm.end() - 1, "(", ")")
+        b0 = _ws(src, pe)
+        qm = re.match(r"[\s\w]*(?:noexcept\s*\(\s*\w+\s*\)\s*)?[\s\w]*", src[pe:])
+        b0 = pe + qm.end()
+        if b0 >= len(src) or src[b0] != "{":
+            continue
+        tps = _tparam_names(hm.group(1)) if hm.group(1) and hm.group(1).strip() else []
+        if len(tps) != len(cparams):
+            continue
+        ren = dict(zip(tps, cparams))
+        if len(set(ren.values())) != len(ren):
+            continue
+        if _norm(_rename_words(m.group(1), ren)) != expected:
+            continue  # a member of another specialisation
+        ret = re.sub(r"(?:\w+\s*::\s*)+$", "", hm.group(2).strip())
+        ret = " ".join(w for w in ret.split() if w not in ("inline", "constexpr"))
+        be = _match(src, b0, "{", "}")
+        text = "%s %s(%s)%s{%s}" % (ret, nm.group(1), src[m.end() + nm.end():pe - 1], src[pe:b0], src[b0 + 1:be - 1])
+        out.append(_rename_words(text, ren))
+    return "".join("\n" + t + "\n" for t in out)
 
 
 # ------------------------------------------------------------------------------------------------ statements
@@ -169,8 +253,8 @@ def _tokens(e):
 class _Expr:
     """typed recursive descent; result (lean text, 'int'|'bool')"""
 
-    def __init__(self, toks, env):
-        self.t, self.i, self.env = toks, 0, env
+    def __init__(self, toks, env, depth=0):
+        self.t, self.i, self.env, self.depth = toks, 0, env, depth
 
     def peek(self):
         return self.t[self.i] if self.i < len(self.t) else None
@@ -275,8 +359,116 @@ class _Expr:
         if tok == "active_":
             return ("g.active", "bool")
         if tok in self.env:
-            return ("v_" + tok, self.env[tok])
+            v = self.env[tok]
+            return v if isinstance(v, tuple) else ("v_" + tok, v)
+        if tok in _HELPERS and self.peek() == "(":
+            return self.call(tok)
         raise TranslateError("expression: unknown name %r in %r" % (tok, " ".join(self.t)))
+
+
+    def call(self, name):
+        """a call of a side-effect-free member helper `int|bool name(int|bool p, ..)` whose body is a value tree of
+        `return`s: the helper's value with the translated arguments put in for the parameters (they are pure reads of
+        locals / `active_`, so evaluating them once or several times, or not at all, is the same)"""
+        rty, params, text = _HELPERS[name]
+        if self.depth > 8:
+            raise TranslateError("helper %r: recursion" % name)
+        self.eat("(")
+        args = []
+        if self.peek() != ")":
+            args.append(self.ternary())
+            while self.peek() == ",":
+                self.eat()
+                args.append(self.ternary())
+        self.eat(")")
+        if len(args) != len(params):
+            raise TranslateError("helper %r called with %d arguments" % (name, len(args)))
+        env = {pn: ("(%s)" % _as(a, pt) if not re.match(r"[\w.]+$|\(.*\)$", _as(a, pt)) else _as(a, pt), pt)
+               for (pt, pn), a in zip(params, args)}
+        r = _Expr(_tokens(text), env, self.depth + 1).full()
+        return (_as(r, rty), rty)
+
+
+def _value_tree(stmts, what):
+    """the value a helper returns, as ONE expression text: `return e;`, `if (c) S [else S]` with the rest of the body
+    sequenced after both branches, blocks"""
+    if not stmts:
+        raise TranslateError("%s: a path without return" % what)
+    st, rest = stmts[0], stmts[1:]
+    if st[0] == "block":
+        return _value_tree(list(st[1]) + list(rest), what)
+    if st[0] == "if":
+        return "( %s ) ? ( %s ) : ( %s )" % (st[1], _value_tree(list(st[2]) + list(rest), what),
+                                           _value_tree(list(st[3] or []) + list(rest), what))
+    m = re.match(r"return\b\s*(.+)$", st[1])
+    if not m:
+        raise TranslateError("%s: statement outside the grammar of helpers: %r" % (what, st[1]))
+    return m.group(1)
+
+
+_HELPERS = {}
+_HELPER_RX = re.compile(r"(?:(?:static|inline|constexpr)\s+)*\b(int|bool)\s+(\w+)\s*\(([^()]*)\)\s*(?:const\s*)?(?:noexcept\s*)?\{")
+
+
+def _find_helpers(body, skip):
+    """member functions of MPIGuard of the shape `[static] int|bool name(int|bool p, ..) [const] { value tree }`"""
+    _HELPERS.clear()
+    for m in _HELPER_RX.finditer(body):
+        name = m.group(2)
+        if name in skip:
+            continue
+        params = []
+        ok = True
+        for part in _top_split(m.group(3)):
+            pm = re.match(r"(?:const\s+)?(int|bool)(?:\s+const)?\s+(\w+)$", " ".join(part.split()))
+            if not pm:
+                ok = False
+                break
+            params.append((pm.group(1), pm.group(2)))
+        if not ok:
+            continue  # not a helper of this shape: a use of it is an unknown name
+        i = m.end() - 1
+        text = body[i + 1:_match(body, i, "{", "}") - 1]
+        if name in _HELPERS:
+            raise TranslateError("helper %r is overloaded" % name)
+        try:
+            _HELPERS[name] = (m.group(1), params, _value_tree(_flatten(_split_stmts(text)), "helper " + name))
+        except TranslateError:
+            pass  # not a value tree: a use of it is an unknown name
+
+
+_VOID_HELPERS = {}
+_INLINED = [0]
+
+
+def _plain(stmts):
+    for st in stmts:
+        if st[0] == "block":
+            if not _plain(st[1]):
+                return False
+        elif st[0] == "if":
+            if not _plain(st[2]) or not _plain(st[3] or []):
+                return False
+        elif re.match(r"return\b|(?:const\s+)?(?:int|bool|auto)\b", st[1]):
+            return False
+    return True
+
+
+def _find_void_helpers(body, skip):
+    _VOID_HELPERS.clear()
+    _INLINED[0] = 0
+    for m in re.finditer(r"\bvoid\s+(\w+)\s*\(\s*\)\s*(?:const\s*)?(?:noexcept\s*)?\{", body):
+        if m.group(1) in skip:
+            continue
+        i = m.end() - 1
+        try:
+            st = _flatten(_split_stmts(body[i + 1:_match(body, i, "{", "}") - 1]))
+        except TranslateError:
+            continue
+        if m.group(1) in _VOID_HELPERS:
+            raise TranslateError("helper %r is overloaded" % m.group(1))
+        if _plain(st):
+            _VOID_HELPERS[m.group(1)] = st
 
 
 def _as(e, ty):
@@ -343,6 +535,14 @@ def _prog(stmts, env, ind, fin_default):
             raise TranslateError("finalize() called without argument but no default argument was found")
         return ("%s(finalize g %s).bind fun r_ => if r_.2 then Prog.ret (r_.1, true) else\n%slet g : Guard := r_.1\n%s"
                 % (pad, a, pad, _prog(rest, env, ind, fin_default)))
+    m = re.match(r"(?:this->)?(\w+)\s*\(\s*\)$", t)
+    if m and m.group(1) in _VOID_HELPERS:
+        # a private `void name()` whose body is statements of this grammar without locals and without `return`:
+        # its statements in place of the call (same object, same order; an exception thrown inside leaves the caller too)
+        _INLINED[0] += 1
+        if _INLINED[0] > 32:
+            raise TranslateError("helper %r: recursion" % m.group(1))
+        return _prog(list(_VOID_HELPERS[m.group(1)]) + list(rest), env, ind, fin_default)
     # declaration or assignment
     m = re.match(r"(?:(const\s+)?(int|bool|auto)(\s+const)?\s+)?(\w+)\s*=\s*(.*)$", t)
     if not m:
@@ -387,6 +587,8 @@ def _guard(repo):
     param, dflt = m.group(1), m.group(2)
     if dflt not in (None, "true", "false"):
         raise TranslateError("finalize: default argument %r" % dflt)
+    _find_helpers(body, {"finalize", "reactivate"})
+    _find_void_helpers(body, {"finalize", "reactivate"})
     fin = _prog(_flatten(_split_stmts(fb)), {param: "bool"}, 1, None)
     _, rb = _fn(body, r"\bvoid\s+reactivate\s*\(\s*\)", "MPIGuard::reactivate")
     rea = _prog(_flatten(_split_stmts(rb)), {}, 1, dflt)
@@ -455,6 +657,11 @@ _FUT_STMT = [
     ("int @ = - 1", "declFlag"),
     ("MPI_Test ( & req_ , & @ , & status_ )", "mpiTest"),
     ("return @", "retLocal"),
+    ("return @ != 0", "retFlagAsBool"),
+    ("return 0 != @", "retFlagAsBool"),
+    ("return static_cast < bool > ( @ )", "retFlagAsBool"),
+    ("return ( bool ) @", "retFlagAsBool"),
+    ("return bool ( @ )", "retFlagAsBool"),
     ("wait ( )", "callWait"),
     ("return data_ . get ( )", "retTakeData"),
     ("return send_data_ . get ( )", "retTakeSend"),
@@ -516,11 +723,159 @@ def _norm(t):
     return " ".join(x for x in out if not x.isspace())
 
 
-def _micro_of(stmt_tree, what):
-    ops, names = [], {}
-    for st in stmt_tree:
+_NULLTEST = [(re.compile(r"^(%s) != nullptr$" % _ID), r"\1"), (re.compile(r"^nullptr != (%s)$" % _ID), r"\1"),
+             (re.compile(r"^static_cast < bool > \( (%s) \)$" % _ID), r"\1"), (re.compile(r"^\( bool \) (%s)$" % _ID), r"\1"),
+             (re.compile(r"^bool \( (%s) \)$" % _ID), r"\1"), (re.compile(r"^(%s) == nullptr$" % _ID), r"! \1"),
+             (re.compile(r"^nullptr == (%s)$" % _ID), r"! \1"), (re.compile(r"^! ! (%s)$" % _ID), r"\1"),
+             (re.compile(r"^! \( (%s) \)$" % _ID), r"! \1"), (re.compile(r"^\( (%s) \)$" % _ID), r"\1"),
+             # comparisons with `false` (right for every arithmetic or pointer-like type; `== true` is not: 2 == true is false)
+             (re.compile(r"^(%s) == false$" % _ID), r"! \1"), (re.compile(r"^false == (%s)$" % _ID), r"! \1"),
+             (re.compile(r"^(%s) != false$" % _ID), r"\1"), (re.compile(r"^false != (%s)$" % _ID), r"\1")]
+
+
+def _norm_cond(c):
+    """a condition in token form with the spellings of `is (not) null / empty` of one name reduced to `x` / `! x`"""
+    c = _norm(c)
+    for _ in range(4):
+        for rx, rep in _NULLTEST:
+            c2 = rx.sub(rep, c)
+            if c2 != c:
+                c = c2
+                break
+        else:
+            break
+    return c
+
+
+def _split_cond_expr(t):
+    """`C ? A : B` (one conditional operator at the top level, token form) -> (C, A, B) or None"""
+    toks, depth, q, col = t.split(" "), 0, None, None
+    for i, x in enumerate(toks):
+        if x in "([{":
+            depth += 1
+        elif x in ")]}":
+            depth -= 1
+        elif depth == 0 and x == "?":
+            if q is not None:
+                return None
+            q = i
+        elif depth == 0 and x == ":" and q is not None:
+            if col is not None:
+                return None
+            col = i
+    if q is None or col is None or not (0 < q < col - 1 < len(toks) - 2):
+        return None
+    return " ".join(toks[:q]), " ".join(toks[q + 1:col]), " ".join(toks[col + 1:])
+
+
+def _is_throw(st):
+    return st[0] == "simple" and re.match(r"DUNE_THROW \(", st[1]) is not None
+
+
+def _negate(c):
+    """negation of a condition that is one name or one call without arguments (possibly negated); None otherwise"""
+    atom = r"%s(?: \( \))?" % _ID
+    if re.match(r"! %s$" % atom, c):
+        return c[2:]
+    if re.match(r"%s$" % atom, c):
+        return "! " + c
+    return None
+
+
+def _is_ret(st):
+    return st[0] == "simple" and re.match(r"return\b.", st[1]) is not None
+
+
+def _norm_returns(stmts, ret_bool=False):
+    """Value-returning control flow in ONE spelling, `if (c) return a; return b;`:
+    `return c ? a : b;`, `if (c) return a; else return b;`, `if (!c) return b; return a;` (c one name: evaluating it has no
+    effect), null tests of a name as the name itself, `this->` dropped (no local can hide a member here: locals that
+    carry a member's name are rejected)."""
+    out = []
+    for st in stmts:
         if st[0] == "block":
-            ops += _micro_of(st[1], what)
+            out.append(("block", _norm_returns(st[1], ret_bool)))
+            continue
+        if st[0] == "simple":
+            t = re.sub(r"(?<![\w])this -> ", "", _norm(st[1]))
+            ce = _split_cond_expr(t[7:]) if t.startswith("return ") else None
+            ma = re.match(r"return ((?:! )?%s|%s [!=]= nullptr|nullptr [!=]= %s) && ([^&|?]+)$" % (_ID, _ID, _ID), t) if ret_bool else None
+            if ma and "," not in ma.group(2):
+                # in a function returning bool: `return x && e;` is `if (x) return e; return false;` (x one name)
+                ce = (ma.group(1), ma.group(2), "false")
+            if ce:
+                out.append(("if", _norm_cond(ce[0]), [("simple", "return " + ce[1])], None))
+                out.append(("simple", "return " + ce[2]))
+            else:
+                out.append(("simple", t))
+            continue
+        cond = _norm_cond(re.sub(r"(?<![\w])this -> ", "", _norm(st[1])))
+        th = _norm_returns(st[2], ret_bool)
+        el = _norm_returns(st[3], ret_bool) if st[3] is not None else None
+        while len(th) == 1 and th[0][0] == "block" and len(th[0][1]) == 1:
+            th = th[0][1]
+        while el is not None and len(el) == 1 and el[0][0] == "block" and len(el[0][1]) == 1:
+            el = el[0][1]
+        if el is not None and len(th) == 1 and _is_ret(th[0]) and len(el) == 1 and _is_ret(el[0]):
+            out.append(("if", cond, th, None))
+            out.append(el[0])
+        elif el is not None and len(th) == 1 and _is_throw(th[0]):
+            # `if (c) THROW; else { S }` is `if (c) THROW; S` (the macro never returns)
+            out.append(("if", cond, th, None))
+            out += el
+        elif el is not None and len(el) == 1 and _is_throw(el[0]) and _negate(cond) is not None:
+            # `if (c) { S } else THROW;` is `if (!c) THROW; S`
+            out.append(("if", _negate(cond), el, None))
+            out += th
+        else:
+            out.append(("if", cond, th, el))
+    # if (!x) return b; return a;  ->  if (x) return a; return b;
+    res, i = [], 0
+    while i < len(out):
+        st = out[i]
+        if (st[0] == "if" and st[3] is None and len(st[2]) == 1 and _is_ret(st[2][0]) and re.match(r"! %s$" % _ID, st[1])
+                and i + 1 < len(out) and _is_ret(out[i + 1])):
+            res.append(("if", st[1][2:], [out[i + 1]], None))
+            res.append(st[2][0])
+            i += 2
+            continue
+        res.append(st)
+        i += 1
+    return res
+
+
+_KNOWN_MEMBERS = {"wait", "get", "ready", "valid", "get_send_data", "get_mpidata", "get_send_mpidata", "reset"}
+
+
+def _void_helpers(body):
+    """`void name() [const] [noexcept] { .. }` members of a future class other than the interface: name -> statement tree"""
+    out = {}
+    for m in re.finditer(r"\bvoid\s+(\w+)\s*\(\s*\)\s*(?:const\s*)?(?:noexcept\s*)?\{", body):
+        if m.group(1) in _KNOWN_MEMBERS:
+            continue
+        if m.group(1) in out:
+            raise TranslateError("helper %r is overloaded" % m.group(1))
+        i = m.end() - 1
+        out[m.group(1)] = _split_stmts(body[i + 1:_match(body, i, "{", "}") - 1])
+    return out
+
+
+def _micro_of(stmt_tree, what, top=True, ret_bool=False, helpers=None, depth=0):
+    ops, names = [], {}
+    helpers = helpers or {}
+    if top:
+        stmt_tree = _norm_returns(stmt_tree, ret_bool)
+    for st in stmt_tree:
+        mh = re.match(r"(%s) \( \)$" % _ID, st[1]) if st[0] == "simple" else None
+        if mh and mh.group(1) in helpers:
+            # a private `void helper()` of the class: its statements in place of the call (a `return` inside it is
+            # outside the grammar, so the statements after the call are reached exactly when the helper ends normally)
+            if depth > 8:
+                raise TranslateError("%s: helper %r: recursion" % (what, mh.group(1)))
+            ops += _micro_of(helpers[mh.group(1)], "%s > %s" % (what, mh.group(1)), True, False, helpers, depth + 1)
+            continue
+        if st[0] == "block":
+            ops += _micro_of(st[1], what, False, ret_bool, helpers, depth)
             continue
         if st[0] == "if":
             if st[3] is not None or len(st[2]) != 1 or st[2][0][0] != "simple":
@@ -536,11 +891,18 @@ def _micro_of(stmt_tree, what):
             if m:
                 if op in ("declFlag", "moveOut"):
                     names["local"] = m.group(1)
+                    names["kind"] = op
                     if op == "declFlag":
                         op = None
-                elif op in ("mpiTest", "retLocal"):
+                elif op in ("mpiTest", "retLocal", "retFlagAsBool"):
                     if names.get("local") != m.group(1):
                         raise TranslateError("%s: %r uses an undeclared local" % (what, text))
+                    if op == "retFlagAsBool":
+                        # `return flag != 0;` is what `return flag;` means in a function returning bool, for the int
+                        # completion flag only (never for the object moved out of a buffer)
+                        if names.get("kind") != "declFlag":
+                            raise TranslateError("%s: %r converts the returned object" % (what, text))
+                        op = "retLocal"
                 if op:
                     ops.append(op)
                 break
@@ -550,8 +912,8 @@ def _micro_of(stmt_tree, what):
 
 
 def _member(body, rx, what):
-    _, b = _fn(body, rx, what)
-    return _micro_of(_split_stmts(b), what)
+    m, b = _fn(body, rx, what)
+    return _micro_of(_split_stmts(b), what, True, re.match(r"bool\b", m.group(0).lstrip()) is not None, _void_helpers(body))
 
 
 def _lean_ops(ops):
@@ -591,12 +953,16 @@ def _mpifuture(repo):
     bufs = [(r"template\s*<\s*class\s+T\s*>\s*struct\s+Buffer\s*\{", "bufferValue", r"\bT\s+get\s*\(\s*\)"),
             (r"template\s*<\s*class\s+T\s*>\s*struct\s+Buffer\s*<\s*T\s*&\s*>\s*\{", "bufferRef", r"\bT\s*&\s*get\s*\(\s*\)"),
             (r"template\s*<\s*>\s*struct\s+Buffer\s*<\s*void\s*>\s*\{", "bufferVoid", r"\bvoid\s+get\s*\(\s*\)")]
-    for rx, name, getrx in bufs:
-        b = _class_body(src, rx, name)
+    for (rx, name, getrx), (cp, exp) in zip(bufs, ((["T"], "T"), (["T"], "T &"), ([], "void"))):
+        b = _class_body(src, rx, name) + _pull_in(src, "Buffer", cp, exp)
         out.append("def %sGet : List Micro := %s" % (name, _lean_ops(_member(b, getrx, name + "::get"))))
         out.append("def %sBool : List Micro := %s"
                    % (name, _lean_ops(_member(b, r"\boperator\s+bool\s*\(\s*\)\s*const", name + "::operator bool"))))
     body = _class_body(src, r"\bclass\s+MPIFuture\s*\{", "class MPIFuture")
+    mt = re.search(r"template\s*<([^<>]*)>\s*class\s+MPIFuture\s*\{", src)
+    if not mt or _tparam_names(mt.group(1)) != ["R", "S"]:
+        raise TranslateError("class template MPIFuture<R, S>: template header not found")
+    body += _pull_in(src, "MPIFuture", ["R", "S"], "R , S")
     for name, rx in (("valid", r"\bbool\s+valid\s*\(\s*\)\s*const"), ("wait", r"\bvoid\s+wait\s*\(\s*\)"),
                      ("ready", r"\bbool\s+ready\s*\(\s*\)\s*const"), ("get", r"\bR\s+get\s*\(\s*\)"),
                      ("getSendData", r"\bS\s+get_send_data\s*\(\s*\)")):
@@ -630,11 +996,26 @@ def _mpifuture(repo):
     return out
 
 
+def _canonical_member(body, decl_rx, canon, what):
+    """rename the one data member declared by `decl_rx` to the name the statement patterns use"""
+    ms = list(re.finditer(decl_rx, body))
+    if len(ms) != 1:
+        raise TranslateError("%s: %d declarations of the wrapped object found" % (what, len(ms)))
+    name = ms[0].group(1)
+    if name == canon:
+        return body
+    if re.search(r"(?<!\w)%s(?!\w)" % re.escape(canon), body):
+        raise TranslateError("%s: both %r and %r are used" % (what, name, canon))
+    return _rename_words(body, {name: canon})
+
+
 def _future(repo):
     src = _strip(open(os.path.join(repo, FUT)).read())
     out = ["/-! ### PseudoFuture<T>, PseudoFuture<void>, Future<T> (future.hh) -/"]
     pt = _class_body(src, r"template\s*<\s*class\s+T\s*>\s*class\s+PseudoFuture\s*\{", "PseudoFuture<T>")
     pv = _class_body(src, r"template\s*<\s*>\s*class\s+PseudoFuture\s*<\s*void\s*>\s*\{", "PseudoFuture<void>")
+    pt += _pull_in(src, "PseudoFuture", ["T"], "T")
+    pv += _pull_in(src, "PseudoFuture", [], "void")
     for ns, b, getrx in (("PseudoT", pt, r"\bT\s+get\s*\(\s*\)"), ("PseudoV", pv, r"\bvoid\s+get\s*\(\s*\)")):
         out.append("namespace %s" % ns)
         for name, rx in (("valid", r"\bbool\s+valid\s*\(\s*\)\s*const"), ("wait", r"\bvoid\s+wait\s*\(\s*\)"),
@@ -643,6 +1024,11 @@ def _future(repo):
         out.append("end %s" % ns)
     fut = _class_body(src, r"template\s*<\s*class\s+T\s*>\s*class\s+Future\s*\{", "Future<T>")
     model = _class_body(fut, r"\bclass\s+FutureModel\s*:\s*public\s+FutureBase\s*\{", "Future<T>::FutureModel")
+    # the wrapped object: the one data member whose type is FutureModel's template parameter, whatever both are called
+    mt = re.search(r"template\s*<\s*(?:class|typename)\s+(\w+)\s*>\s*class\s+FutureModel\b", fut)
+    if not mt:
+        raise TranslateError("Future<T>::FutureModel: template header not found")
+    model = _canonical_member(model, r"(?:^|(?<=[;{}:]))\s*%s\s+(\w+)\s*;" % re.escape(mt.group(1)), "_future", "FutureModel")
     out.append("namespace ErasedModel")
     for name, rx in (("valid", r"\bbool\s+valid\s*\(\s*\)\s*const(?:\s+override)?"), ("wait", r"\bvoid\s+wait\s*\(\s*\)(?:\s*override)?"),
                      ("ready", r"\bbool\s+ready\s*\(\s*\)\s*const(?:\s+override)?"), ("get", r"\bT\s+get\s*\(\s*\)(?:\s*override)?")):
@@ -654,6 +1040,8 @@ def _future(repo):
         m = re.search(rx, outer)
         i = outer.index("{", m.end() - 1)
         outer = outer[:m.start()] + outer[_match(outer, i, "{", "}"):]
+    outer += _pull_in(src, "Future", ["T"], "T")
+    outer = _canonical_member(outer, r"(?:^|(?<=[;{}:]))\s*std::unique_ptr\s*<\s*FutureBase\s*>\s+(\w+)\s*;", "_future", "Future<T>")
     out.append("namespace Erased")
     for name, rx in (("valid", r"\bbool\s+valid\s*\(\s*\)\s*const"), ("wait", r"\bvoid\s+wait\s*\(\s*\)"),
                      ("ready", r"\bbool\s+ready\s*\(\s*\)\s*const"), ("get", r"\bT\s+get\s*\(\s*\)")):
@@ -735,7 +1123,7 @@ def _fwd_param(arg, params, what):
 def _mpi_op(params_text, body, what):
     params = _params(params_text)
     stmts = _split_stmts(body)
-    fut, ctor, call, bufs, req_ok, returns, kinds, threw = None, None, None, [], False, False, {}, False
+    fut, ctor, call, bufs, req_ok, returns, kinds, threw, req_alias = None, None, None, [], False, False, {}, False, None
     for idx, st in enumerate(stmts):
         if st[0] == "if":
             # irecv: `if (mpidata.size() == 0) DUNE_THROW(ParallelError, ..)` before the operation is posted
@@ -765,6 +1153,12 @@ def _mpi_op(params_text, body, what):
                 raise TranslateError("%s: MPI data taken from %r, not from the future" % (what, m.group(2)))
             kinds[m.group(1)] = "data" if m.group(3) == "get_mpidata" else "sendData"
             continue
+        m = re.match(r"(?:MPI_Request|auto)\s*(\*|&)\s*(?:const\s+)?(\w+)\s*=\s*(&?)\s*(\w+)\s*\.\s*req_$", t)
+        if m and call is None and fut is not None and m.group(4) == fut and (m.group(1) == "*") == (m.group(3) == "&"):
+            # `MPI_Request* [const] p = &future.req_;` / `MPI_Request& r = future.req_;`: another name for the request
+            # of the future (nothing else can be assigned to it: every other statement kind is rejected)
+            req_alias = (m.group(2) if m.group(1) == "*" else "&" + m.group(2))
+            continue
         m = re.match(r"(MPI_I\w+)\s*\((.*)\)$", t)
         if m:
             if call is not None:
@@ -780,7 +1174,7 @@ def _mpi_op(params_text, body, what):
                     bufs.append("." + kinds[mp.group(1)])
                 elif a1 == "MPI_IN_PLACE":
                     bufs.append(".inPlace")
-            req_ok = "".join(args[-1].split()) == "&%s.req_" % fut
+            req_ok = "".join(args[-1].split()) in ("&%s.req_" % fut, req_alias)
             continue
         m = re.match(r"return\s+(.*)$", t)
         if m:
@@ -869,8 +1263,181 @@ def translate(repo):
     return [("DuneVerif/Gen/C19.lean", "\n".join(out))]
 
 
+# ------------------------------------------------------------------------------------------------ self test
+# `python3 tools/translators/tr_c19.py --selftest [repo]`: source edits applied to a temporary copy of the five headers.
+# POS = behaviour-preserving spellings: futures must give the SAME generated text as the unchanged tree, guard edits
+# must translate (the proofs of Proofs/C19Gen.lean do not look at the shape of the guard programs; they are re-checked
+# by the Lean build of every run).  NEG = changes of behaviour or rewrites outside the grammar: must raise
+# TranslateError or change the generated text.
+
+_G, _M, _F = GUARD, MPIFUT, FUT
+_OOC_READY = [(_M, "    bool ready() const{\n      int flag = -1;\n      MPI_Test(&req_, &flag, &status_);\n      return flag;\n    }\n",
+               "    bool ready() const;\n"),
+              (_M, "}\n#endif // HAVE_MPI", "  template<class A, class B>\n  bool MPIFuture<A, B>::ready() const\n  {\n"
+               "    int done = -1;\n    MPI_Test(&this->req_, &done, &status_);\n    return static_cast<bool>(done);\n  }\n}\n#endif // HAVE_MPI")]
+_POS = {
+    "guard: helper with if/return, split locals, commuted test": [
+        (_G, "int result = success ? 0 : 1;", "const int mine = flagOf(success);"),
+        (_G, "result = comm_->sum(result);", "const int result = comm_->sum(mine);"),
+        (_G, "if (result>0 && was_active)", "if (was_active && 0<result)"),
+        (_G, "    void finalize(bool success = true)", "    static int flagOf(const bool ok) { if (ok) { return 0; } else return 1; }\n    void finalize(bool success = true)")],
+    "guard: bool helper for the throw test, nested helper": [
+        (_G, "if (result>0 && was_active)", "if (mustThrow(result, was_active))"),
+        (_G, "    void finalize(bool success = true)", "    bool positive(int n) const { return n > 0; }\n"
+         "    bool mustThrow(int n, bool armed) const { return armed ? positive(n) : false; }\n    void finalize(bool success = true)")],
+    "guard: private void helper for disarming": [
+        (_G, "      bool was_active = active_;\n      active_ = false;", "      bool was_active = active_;\n      disarm();"),
+        (_G, "        active_ = false;\n        finalize(false);", "        this->disarm();\n        finalize(false);"),
+        (_G, "    void finalize(bool success = true)", "    void disarm() noexcept { active_ = false; }\n    void finalize(bool success = true)")],
+    "guard: reactivate without == true, explicit argument": [
+        (_G, "if (active_ == true)\n        finalize();", "if (this->active_) { this->finalize(true); }")],
+    "mpifuture: ready() defined after the class, other parameter names, this->, cast": _OOC_READY,
+    "mpifuture: get() defined after the class": [
+        (_M, "    R get() {\n      wait();\n      return data_.get();\n    }\n", "    R get();\n"),
+        (_M, "}\n#endif // HAVE_MPI", "  template<class R, class S>\n  inline R MPIFuture<R, S>::get()\n  {\n    this->wait();\n    return this->data_.get();\n  }\n}\n#endif // HAVE_MPI")],
+    "mpifuture: Buffer<T&>::get defined after the struct": [
+        (_M, "      T& get(){\n        T& tmp = *value;\n        value.reset();\n        return tmp;\n      }\n", "      T& get();\n"),
+        (_M, "    template<>\n    struct Buffer<void>", "    template<class U>\n    U& Buffer<U&>::get(){\n      U& r = *value;\n      value.reset();\n      return r;\n    }\n\n    template<>\n    struct Buffer<void>")],
+    "mpifuture: wait() as if/else with the throw in the else branch": [
+        (_M, "      if(!valid())\n        DUNE_THROW(InvalidFutureException, \"The MPIFuture is not valid!\");\n      MPI_Wait(&req_, &status_);",
+         "      if (valid()) {\n        MPI_Wait(&req_, &status_);\n      } else {\n        DUNE_THROW(InvalidFutureException, \"The MPIFuture is not valid!\");\n      }")],
+    "future: PseudoFuture validity test in a private helper": [
+        (_F, "    T get() {\n      if(!valid_)\n        DUNE_THROW(InvalidFutureException, \"The PseudoFuture is not valid\");", "    T get() {\n      this->requireValid();"),
+        (_F, "    bool valid() const {\n      return valid_;\n    }", "    bool valid() const {\n      return valid_;\n    }\n  private:\n    void requireValid() const {\n      if (valid_ == false) {\n        DUNE_THROW(InvalidFutureException, \"invalid\"); }\n    }")],
+    "mpicomm: request of the future through a pointer / a reference": [
+        ("dune/common/parallel/mpicommunication.hh", "      MPI_Isend(mpidata.ptr(), mpidata.size(), mpidata.type(),\n                       dest_rank, tag, communicator, &future.req_);",
+         "      MPI_Request* const request = &future.req_;\n      MPI_Isend(mpidata.ptr(), mpidata.size(), mpidata.type(),\n                       dest_rank, tag, communicator, request);"),
+        ("dune/common/parallel/mpicommunication.hh", "                 communicator,\n                 &future.req_);", "                 communicator,\n                 &request);"),
+        ("dune/common/parallel/mpicommunication.hh", "      MPI_Ibcast(mpidata.ptr(),", "      auto& request = future.req_;\n      MPI_Ibcast(mpidata.ptr(),")],
+    "future: valid() as conditional expression": [
+        (_F, "      if(_future)\n        return _future->valid();\n      return false;", "      return _future ? _future->valid() : false;")],
+    "future: valid() with inverted guard and nullptr test": [
+        (_F, "      if(_future)\n        return _future->valid();\n      return false;", "      if (_future == nullptr) { return false; }\n      return this->_future->valid();")],
+    "future: valid() as &&": [
+        (_F, "      if(_future)\n        return _future->valid();\n      return false;", "      return _future != nullptr && _future->valid();")],
+    "future: valid() with if/else": [
+        (_F, "      if(_future)\n        return _future->valid();\n      return false;", "      if (_future != nullptr)\n        return _future->valid();\n      else\n        return false;")],
+    "future: FutureModel with other names, no virtual": [
+        (_F, "template<class F>\n    class FutureModel", "template<typename Wrapped>\n    class FutureModel"),
+        (_F, "      F _future;\n    public:\n      FutureModel(F&& f)\n        : _future(std::forward<F>(f))", "      Wrapped w_;\n    public:\n      FutureModel(Wrapped&& f)\n        : w_(std::forward<Wrapped>(f))"),
+        (_F, "virtual void wait() override\n      {\n        _future.wait();", "void wait() override\n      {\n        w_.wait();"),
+        (_F, "return _future.ready();", "return w_.ready();"), (_F, "return _future.valid();", "return w_.valid();"),
+        (_F, "return (T)_future.get();", "return static_cast<T>(w_.get());")],
+    "future: Future<T>::_future renamed": [
+        (_F, "std::unique_ptr<FutureBase> _future;", "std::unique_ptr<FutureBase> impl_;"),
+        (_F, "if(_future)\n        return _future->valid();", "if(impl_)\n        return impl_->valid();"),
+        (_F, "_future->wait();", "impl_->wait();"), (_F, "return _future->get();", "return impl_->get();"),
+        (_F, "return _future->ready();", "return impl_->ready();"), (_F, "if(!_future)", "if(!impl_)"),
+        (_F, "_future(std::make_unique", "impl_(std::make_unique")],
+}
+_NEG = {
+    "guard: helper with the flags swapped": [
+        (_G, "int result = success ? 0 : 1;", "int result = flagOf(success);"),
+        (_G, "    void finalize(bool success = true)", "    static int flagOf(bool ok) { if (ok) return 1; return 0; }\n    void finalize(bool success = true)")],
+    "guard: void helper that arms instead of disarming": [
+        (_G, "      bool was_active = active_;\n      active_ = false;", "      bool was_active = active_;\n      disarm();"),
+        (_G, "    void finalize(bool success = true)", "    void disarm() noexcept { active_ = true; }\n    void finalize(bool success = true)")],
+    "guard: void helper with an early return": [
+        (_G, "      bool was_active = active_;\n      active_ = false;", "      bool was_active = active_;\n      disarm();"),
+        (_G, "    void finalize(bool success = true)", "    void disarm() { if (!active_) return; active_ = false; }\n    void finalize(bool success = true)")],
+    "guard: helper with a side effect": [
+        (_G, "int result = success ? 0 : 1;", "int result = flagOf(success);"),
+        (_G, "    void finalize(bool success = true)", "    int flagOf(bool ok) { active_ = false; return ok ? 0 : 1; }\n    void finalize(bool success = true)")],
+    "guard: helper calling the collective": [
+        (_G, "result = comm_->sum(result);", "result = total(result);"),
+        (_G, "    void finalize(bool success = true)", "    int total(int n) { return comm_->sum(n); }\n    void finalize(bool success = true)")],
+    "guard: helper with a path without return": [
+        (_G, "int result = success ? 0 : 1;", "int result = flagOf(success);"),
+        (_G, "    void finalize(bool success = true)", "    static int flagOf(bool ok) { if (ok) return 0; }\n    void finalize(bool success = true)")],
+    "mpifuture: ready() after the class without MPI_Test": [_OOC_READY[0],
+        (_M, "}\n#endif // HAVE_MPI", "  template<class A, class B>\n  bool MPIFuture<A, B>::ready() const\n  {\n    int done = -1;\n    return done != 0;\n  }\n}\n#endif // HAVE_MPI")],
+    "mpifuture: ready() declared, never defined": [_OOC_READY[0]],
+    "mpifuture: ready() returns flag == 0": [(_M, "return flag;", "return flag == 0;")],
+    "mpifuture: get() after the class without wait": [
+        (_M, "    R get() {\n      wait();\n      return data_.get();\n    }\n", "    R get();\n"),
+        (_M, "}\n#endif // HAVE_MPI", "  template<class R, class S>\n  R MPIFuture<R, S>::get()\n  {\n    return data_.get();\n  }\n}\n#endif // HAVE_MPI")],
+    "mpifuture: get() after the class takes the send buffer (parameters crossed)": [
+        (_M, "    R get() {\n      wait();\n      return data_.get();\n    }\n", "    R get();\n"),
+        (_M, "}\n#endif // HAVE_MPI", "  template<class R, class S>\n  R MPIFuture<R, S>::get()\n  {\n    wait();\n    return send_data_.get();\n  }\n}\n#endif // HAVE_MPI")],
+    "mpifuture: Buffer<T>::get converts the moved object": [(_M, "        return tmp;\n      }\n      operator bool () const {", "        return tmp != 0;\n      }\n      operator bool () const {")],
+    "mpifuture: two definitions of ready()": [(_M, "}\n#endif // HAVE_MPI", "  template<class R, class S>\n  bool MPIFuture<R, S>::ready() const\n  {\n    return true;\n  }\n}\n#endif // HAVE_MPI")],
+    "mpifuture: wait() as if/else, branches crossed": [
+        (_M, "      if(!valid())\n        DUNE_THROW(InvalidFutureException, \"The MPIFuture is not valid!\");\n      MPI_Wait(&req_, &status_);",
+         "      if (!valid()) {\n        MPI_Wait(&req_, &status_);\n      } else {\n        DUNE_THROW(InvalidFutureException, \"The MPIFuture is not valid!\");\n      }")],
+    "future: PseudoFuture helper tests the opposite": [
+        (_F, "    T get() {\n      if(!valid_)\n        DUNE_THROW(InvalidFutureException, \"The PseudoFuture is not valid\");", "    T get() {\n      requireValid();"),
+        (_F, "    bool valid() const {\n      return valid_;\n    }", "    bool valid() const {\n      return valid_;\n    }\n  private:\n    void requireValid() const {\n      if (valid_)\n        DUNE_THROW(InvalidFutureException, \"invalid\");\n    }")],
+    "future: PseudoFuture helper is empty": [
+        (_F, "    T get() {\n      if(!valid_)\n        DUNE_THROW(InvalidFutureException, \"The PseudoFuture is not valid\");", "    T get() {\n      requireValid();"),
+        (_F, "    bool valid() const {\n      return valid_;\n    }", "    bool valid() const {\n      return valid_;\n    }\n  private:\n    void requireValid() const {}")],
+    "mpicomm: request pointer to a local request": [
+        ("dune/common/parallel/mpicommunication.hh", "      MPI_Isend(mpidata.ptr(), mpidata.size(), mpidata.type(),\n                       dest_rank, tag, communicator, &future.req_);",
+         "      MPI_Request local;\n      MPI_Request* const request = &local;\n      MPI_Isend(mpidata.ptr(), mpidata.size(), mpidata.type(),\n                       dest_rank, tag, communicator, request);")],
+    "mpicomm: request by value copy": [
+        ("dune/common/parallel/mpicommunication.hh", "      MPI_Isend(mpidata.ptr(), mpidata.size(), mpidata.type(),\n                       dest_rank, tag, communicator, &future.req_);",
+         "      auto request = future.req_;\n      MPI_Isend(mpidata.ptr(), mpidata.size(), mpidata.type(),\n                       dest_rank, tag, communicator, &request);")],
+    "round four M6: Future::valid() is (bool)_future": [
+        (_F, "      if(_future)\n        return _future->valid();\n      return false;", "      return (bool)_future;")],
+    "round four M4: PseudoFuture<void>::wait() loses the validity test": [
+        (_F, "    void wait(){\n      if(!valid_)\n        DUNE_THROW(InvalidFutureException, \"The PseudoFuture is not valid\");\n    }", "    void wait(){\n    }")],
+    "round four M1: result>1": [(_G, "if (result>0 && was_active)", "if (result>1 && was_active)")],
+    "future: valid() with the branches crossed": [
+        (_F, "      if(_future)\n        return _future->valid();\n      return false;", "      return _future ? false : _future->valid();")],
+    "future: valid() inverted guard without inverting the branches": [
+        (_F, "      if(_future)\n        return _future->valid();\n      return false;", "      if (!_future) return _future->valid();\n      return false;")],
+    "future: valid() as ||": [
+        (_F, "      if(_future)\n        return _future->valid();\n      return false;", "      return _future || _future->valid();")],
+    "future: valid() as && of the negated test": [
+        (_F, "      if(_future)\n        return _future->valid();\n      return false;", "      return !_future && _future->valid();")],
+    "future: valid() true for an empty future": [
+        (_F, "      if(_future)\n        return _future->valid();\n      return false;", "      return _future ? _future->valid() : true;")],
+    "future: valid() == nullptr test without inversion": [
+        (_F, "      if(_future)\n        return _future->valid();\n      return false;", "      if (_future == nullptr) return _future->valid();\n      return false;")],
+    "future: FutureModel forwards valid() to ready()": [(_F, "return _future.valid();", "return _future.ready();")],
+    "future: FutureModel with two wrapped members": [(_F, "      F _future;\n    public:", "      F _future;\n      F other_;\n    public:")],
+    "future: wait() loses the null test": [(_F, "      if(!_future)\n        DUNE_THROW(InvalidFutureException, \"The Future is not valid\");\n      _future->wait();", "      _future->wait();")],
+}
+
+
+def _selftest(repo):
+    import shutil, tempfile
+    files = (GUARD, MPIFUT, FUT, MPICOMM, SEQCOMM)
+    base = translate(repo)[0][1]
+    bad = 0
+    for kind, cases in (("POS", _POS), ("NEG", _NEG)):
+        for name, edits in cases.items():
+            d = tempfile.mkdtemp(prefix="tr_c19_")
+            try:
+                for f in files:
+                    os.makedirs(os.path.dirname(os.path.join(d, f)), exist_ok=True)
+                    shutil.copy(os.path.join(repo, f), os.path.join(d, f))
+                for f, a, b in edits:
+                    t = open(os.path.join(d, f)).read()
+                    if t.count(a) < 1:
+                        raise SystemExit("selftest %r: edit text %r not found in %s (update the self test)" % (name, a[:40], f))
+                    open(os.path.join(d, f), "w").write(t.replace(a, b))
+                try:
+                    got = translate(d)[0][1]
+                except TranslateError as e:
+                    got = "ERR " + str(e)
+                if kind == "POS":
+                    ok = not got.startswith("ERR") and (got == base or name.startswith("guard"))
+                else:
+                    ok = got.startswith("ERR") or got != base
+                if not ok:
+                    bad += 1
+                print("%s %-4s %s%s" % ("ok  " if ok else "FAIL", kind, name, "  [" + got[:110] + "]" if got.startswith("ERR") else ""))
+            finally:
+                shutil.rmtree(d)
+    print("selftest: %d POS, %d NEG, %d failed" % (len(_POS), len(_NEG), bad))
+    return 1 if bad else 0
+
+
 if __name__ == "__main__":
     import sys
+    if "--selftest" in sys.argv:
+        rest = [a for a in sys.argv[1:] if a != "--selftest"]
+        sys.exit(_selftest(rest[0] if rest else "/repo"))
     for path, content in translate(sys.argv[1] if len(sys.argv) > 1 else "/repo"):
         print("--", path)
         print(content)
